@@ -86,12 +86,12 @@ Fixpoint is_linear (e : fexpr) : bool :=
   | FConst c => c =? nzero
   | FQuadS a _ c => match a with None => c =? nzero | Some _ => false end
   | FLeft _ f | FRight _ f => is_linear f
-  | FRightVec _ _ => false
+  | FRightVec _ f => is_linear f
   | FSum f g => is_linear f && is_linear g
   | FScalarSum f c => is_linear f && (c =? nzero)
   | FTransl _ _ | FInfConv _ _ | FBreg _ => false
-  | FQuadPert f a _ _ => is_linear f && (a =? nzero)
-  | FDefConj f => is_linear f
+  | FQuadPert f a _ c => is_linear f && (a =? nzero) && (c =? nzero)
+  | FDefConj _ => false
   | FSep2 _ f g => is_linear f && is_linear g
   end.
 
@@ -249,8 +249,9 @@ Definition prox_l2 (w : list T) (sigma : T) (x : list T) : list T :=         (* 
     (let step := sigma / nx in
      if step <? none_ then vscal (none_ - step) x else map (fun _ => nzero) x)
   else map (fun _ => nzero) x.
+(* pointwise factor: gamma / (gamma + sigma) where |x| <= gamma + sigma, 1 - sigma / |x| elsewhere *)
 Definition huber_prox1 (g sigma a : T) : T :=
-  if nabs a <=? g + sigma then g / (g + sigma) * a else a - sigma * nsign a.
+  (if nabs a <=? g + sigma then g / (g + sigma) else none_ - sigma / nabs a) * a.
 (* proximal_convex_conj(factory)(sigma) = Id - sigma * factory(1/sigma)( . / sigma) *)
 Definition moreau_conj (p : T -> list T -> res (list T)) (sigma : T) (x : list T) : res (list T) :=
   q <- p (none_ / sigma) (vscal (none_ / sigma) x) ;; Ok (vsub x (vscal sigma q)).
